@@ -104,17 +104,23 @@ class Gen:
     def key_plain(self):
         return self.r.choice(KEYS[:12])
 
+    def comment_text(self):
+        r = self.r
+        if self.wild:
+            return r.choice(COMMENTS)
+        return r.choice([c for c in COMMENTS if c and c == c.strip()])
+
     def comments(self):
         r = self.r
         if r.random() < 0.8:
             return []
-        return [r.choice(COMMENTS) for _ in range(r.randint(1, 2))]
+        return [self.comment_text() for _ in range(r.randint(1, 2))]
 
     def trailing(self):
         r = self.r
         if r.random() < 0.85:
             return None
-        return r.choice(COMMENTS)
+        return self.comment_text()
 
     def node(self, depth):
         r = self.r
@@ -125,17 +131,26 @@ class Gen:
             return ("a", self.key(), v, self.comments(), tr)
         if x < 0.8:
             tgt = r.choice([None, None, None, "TARGET", "SELF"])
-            return ("b", self.key(), tgt, self.children(depth + 1), self.comments())
+            return ("b", self.key(), tgt, self.children(depth + 1, in_block=True), self.comments())
         if x < 0.93:
             sid = r.choice(["1", "2", "3", "2b", "10", "CONTEXT", "0"])
-            ann = r.choice([None, None, "note", "a,b", ""])
+            ann = r.choice([None, None, "note", "a,b", ""] if self.wild else [None, None, "note", "a,b"])
             return ("s", sid, r.choice(KEYS[:8]), ann, self.children(depth + 1), self.comments())
-        if x < 0.97:
+        if x < 0.97 and self.wild:
             return ("c", r.choice(COMMENTS))
-        return ("a", "", self.zone(), [], None) if self.wild or depth > 0 else ("a", self.key(), self.scalar(), [], None)
+        if self.wild:
+            return ("a", "", self.zone(), [], None)
+        return ("a", self.key(), self.scalar(), [], None)
 
-    def children(self, depth):
-        return [self.node(depth) for _ in range(self.r.randint(0 if self.wild else 1, self.max_sibs))]
+    def children(self, depth, in_block=False):
+        r = self.r
+        out = [self.node(depth) for _ in range(r.randint(0 if self.wild else 1, self.max_sibs))]
+        if not self.wild:
+            if in_block and r.random() < 0.12:
+                out.insert(r.randint(0, len(out)), ("a", "", self.zone(), self.comments(), None))
+            if r.random() < 0.1:   # orphan comments only at the end of a body
+                out += [("c", self.comment_text()) for _ in range(r.randint(1, 2))]
+        return out
 
     def meta(self):
         r = self.r
@@ -173,6 +188,7 @@ class Gen:
             "front": front,
             "sep": r.random() < 0.3,
             "meta": self.meta(),
-            "sections": [self.node(0) for _ in range(r.randint(0 if self.wild else 1, self.max_sibs + 2))],
+            "sections": [n for n in (self.node(0) for _ in range(r.randint(0 if self.wild else 1, self.max_sibs + 2)))
+                         if self.wild or n[0] != "c"],
             "trailing": self.comments() if r.random() < 0.5 else [],
         }
